@@ -77,12 +77,16 @@ UsedVecClauses(r) == << <<"no-crash", r.fresh.st # "crash" /\ r.used.st # "crash
                         <<"valid-file-read-ok", r.fresh.st = "ok">>,
                         <<"read-into-used-vectors=read-into-fresh-vectors", SameOut(r.fresh, r.used)>> >>
 
+\* a read with several OpenMP threads returns the matrix that was written (rows sorted), bitwise
+MtReadClauses(r) == << <<"multithreaded-read-ok", r.st = "ok">>, <<"multithreaded-read=written-matrix", r.st = "ok" => r.mism = 0>> >>
+
 Clauses(r) ==
     CASE r.k = "mm"      -> MMClauses(r)
       [] r.k = "bin"     -> BinClauses(r)
       [] r.k = "bits"    -> BitsClauses(r)
       [] r.k = "mmkind"  -> KindClauses(r)
       [] r.k = "usedvec" -> UsedVecClauses(r)
+      [] r.k = "mtread"  -> MtReadClauses(r)
       [] r.k = "summary" -> <<>>
       [] OTHER           -> << <<"unknown-record", FALSE>> >>
 Failed(r) == IF Has(r, "e") THEN (IF r.e = "End" THEN <<>> ELSE <<"recorder:" \o r.e>>)
